@@ -628,7 +628,8 @@ def _guess_peak(
 ) -> dict[str, sc.Variable]:
     # 2* to match the range in _guess_background
     n = int(len(data) * fit_parameters.guess_background_fraction / 2)
-    bulk = data[n:-n]
+    # Not data[n:-n]: for n == 0 (few points or a small fraction) that is empty.
+    bulk = data[n : len(data) - n]
     return model.guess(bulk)
 
 
